@@ -1,0 +1,1 @@
+//! crypto rig (verification scaffolding, cfg(rustdds_verif))
